@@ -49,14 +49,24 @@ TRUSTED = [
     "int(), str.strip/split/upper/lower, numpy lcm/dot/sign/abs on small integers",
 ]
 PARTIAL = [
-    "search_format is proved for every generated single-component template; for composite lines "
-    "(snote-note, snote-deletion, insertion-note, ornament-note, stime-ptime) the component searches are "
-    "modelled and compared, and `note(` not matching inside `snote(` is proved for the generated tables by "
-    "the decidable comma-count condition only",
+    "search_format / matchAt_format / search_format_gen are proved for EVERY template satisfying TemplateOK (all "
+    "generated templates do: templates_ok); for composite lines (snote-note, deletion, insertion, ornament, "
+    "stime-ptime) search_offset reduces 'each component's search finds its own component' to the decidable "
+    "per-line condition noEarly (no anchored match starts inside the other component); that condition is not "
+    "derived from a structural comma-count argument - it is evaluated in the non-vacuity example and the "
+    "component searches are compared on every generated composite line",
+    "line_roundtrip_partial (parse(format x) = x and the formatting fixpoint) is proved for templates whose "
+    "fields are interpreted independently (pedal, ptime, stime, section, 1.0.0 note, ornament/trill heads); the "
+    "Attribute-dependent value of info/meta/scoreprop and the pitch post-processing of snote / pre-1.0 note are "
+    "compared (field by field, every generated line), not proved",
+    "codec theorems proved for all values: int, version, list/list body of words, fixed-point decimal text, simple "
+    "durations, 30 keys x 4 spellings and 900 double keys x 2 spellings, exact duration addition; compared only: "
+    "binary64 rounding inside '%.kf' and repr, additive duration strings, key lists with further components, time "
+    "signatures, quoted pre-1.0 strings, tempo indication",
     "FractionalSymbolicDuration.bound_integers (numerator or denominator > 1024) uses binary64 arithmetic: "
     "covered by the oracle only, not by the model",
-    "float codec theorems are stated on the decimal text level (printFixed/parseDecimal); the binary64 "
-    "rounding step is compared, not proved",
+    "to_v1: kind preservation and the content of pedal / deletion / note-pair / performed-note conversion are "
+    "proved; the conversion of info and meta values (key, time signature, subtitle, tempo words) is compared",
 ]
 RULE = ("for every line class x supported version, field values drawn from the field tables: identifiers, every "
         "step x accidental, octaves, rests, measures/beats, fractional durations with/without tuplet divisor and "
